@@ -16,6 +16,14 @@ from pyvc.dsl import contract, external, spec, lemma, implies, iff, inline, ref_
 from pyvc.ty import INT, BOOL, Text, TList, TTuple, TOpt, SINK, TOpaque
 
 PROP = "C04"
+# Not `proof`: one generated obligation (SequentialRunner.run#render-phase/no-raise) fails on the unchanged tree and is a recorded
+# known finding, so discharged != obligations; and "nothing raises for any input" over lexer, parser and rules is not decided.
+LEVEL = "other"
+EXPLANATION = ("Contract-based deductive verification (pyvc: VCs from the real source, z3) of the two parse limits and of the exception "
+               "funnels (_parse_tokens, render_string, the runners): the exception classes an assumed callee contract allows are caught "
+               "and turned into violations, nothing else escapes. All obligations are discharged except the render-phase clause of "
+               "SequentialRunner.run, a genuine recorded defect (known_findings.json). Plus syntactic exception-flow obligations and "
+               "bounded fuzz / limit runs (labelled). Counts: coverage.obligations / discharged / failed_obligations.")
 
 Matchable = TOpaque("Matchable")
 ParseContext = ref_class("sqlfluff.core.parser.context:ParseContext",
